@@ -15,8 +15,9 @@ RULE = ("correspondence: (i) restrict_nucleotides() of every nucleotide-restrict
         "tape; non-trivial = at least two restrictions overlap; oracle: for sequences of length <= 7, brute force over "
         "all 4^L sequences with the documented predicates written independently (harness/oracle_doc.py)")
 TRUSTED = ["harness/oracle_doc.py documented predicates", "harness/gen/hard.py generator", "tape recorder"]
-ASSUMPTIONS = ["an EnforceTranslation start-codon policy naming a codon that is not a start codon of the table is "
-               "ill-formed input (the enforced constraint then fails its own evaluate); excluded from the oracle",
+ASSUMPTIONS = ["an EnforceTranslation start-codon policy naming a codon that is not a start codon of the table, or the policy "
+               "'keep' together with an explicit translation that the kept codon does not give, is ill-formed input (the "
+               "enforced constraint then fails its own evaluate); excluded from the oracle",
                "EnforceChanges without a location keeps the quirk that its enforced flag is set on the user's object"]
 
 HARD_KINDS = ["keep", "keep_idx", "cds", "sequence", "choice", "change", "rare"]
@@ -93,9 +94,17 @@ def allowed_by_docs(descs, original, s):
     return True
 
 
-def wellformed(descs):
+def wellformed(descs, seq=None):
     from Bio.Data import CodonTable
     for d in descs:
+        if d["kind"] == "cds" and d.get("start_codon") == "keep" and d.get("translation") and seq is not None:
+            # "keep the current first codon" together with an explicit translation that this codon does not give
+            # (read as a start codon) asks for two incompatible things: ill-formed input, like a policy codon that
+            # is not a start codon of the table
+            a, b, st = d["location"]
+            first = seq[a:a + 3] if st != -1 else oracle_doc.rc(seq[b - 3:b])
+            if oracle_doc.translate(first, d["table"], True)[:1] != d["translation"][:1]:
+                return False
         if d["kind"] == "cds" and d.get("start_codon") not in (None, "keep"):
             pol = d["start_codon"]
             starts = CodonTable.unambiguous_dna_by_name[d["table"]].start_codons
@@ -108,7 +117,7 @@ def oracle_problem(rng, out):
     import dnachisel as dc
     import numpy as np
     seq, descs = hard.rand_problem(rng, nmin=3, nmax=7, kmax=3, kinds=HARD_KINDS)
-    if not wellformed(descs):
+    if not wellformed(descs, seq):
         return 0
     try:
         stub, space, restrs = C15.build(seq, descs)
